@@ -2414,7 +2414,13 @@ Section Scan.
   Section Live.
     Hypothesis member_id : forall s i, member s i = i.
     Hypothesis abort_panic : forall s i a s' e, handle s i a = (s', Abort, e) -> a = APanic.
-    Hypothesis order_some : forall s, Q s -> order s <> None.
+    (* TS: a state predicate that holds between operations as long as every poll so far returned Pending; US: its counterpart inside a scan *)
+    Variable TS US : St -> Prop.
+    Hypothesis US_cont : forall s i a s' e, US s -> awaited s i = true -> handle s i a = (s', Cont, e) -> US s'.
+    Hypothesis TS_order : forall s is s1, TS s -> order s = Some (is, s1) -> US s1.
+    Hypothesis US_finish : forall s, Q s -> US s -> snd (finish s) = None -> TS (fst (finish s)).
+    Hypothesis US_endp : any_per_iter = true -> forall s, US s -> TS s.
+    Hypothesis TS_order_some : forall s, TS s -> order s <> None.
 
     Definition rem (w: world) (m: nat) := length (nth m (scripts w) []).
     Definition nopanic (sc: list (list step)) := forall m st, In st (nth m sc []) -> answer st <> APanic.
@@ -2467,9 +2473,11 @@ Section Scan.
 
     Definition awmono (w: world) (r: vres) : Prop :=
       match r with VCont w' | VPending w' => forall k, aw w' k = true -> aw w k = true | _ => True end.
+    Definition usmono (w: world) (r: vres) : Prop :=
+      US (cs w) -> match r with VCont w' => US (cs w') | VPending w' => any_per_iter = true /\ US (cs w') | _ => True end.
     Definition vlive (w: world) (i: nat) (r: vres) : Prop :=
       LiveI (vworld r) /\ N (vworld r) = N w /\ (forall k, k <> i -> rem (vworld r) k = rem w k) /\ rem (vworld r) i = rem w i - 1 /\
-      dropped (vworld r) = dropped w /\ finished (vworld r) = finished w /\ Q (cs (vworld r)) /\ awmono w r /\ (forall w', r <> VAbort w').
+      dropped (vworld r) = dropped w /\ finished (vworld r) = finished w /\ Q (cs (vworld r)) /\ awmono w r /\ usmono w r /\ (forall w', r <> VAbort w').
 
     Lemma poll_child_live w i pid : LiveI w -> Q (cs w) -> i < N w -> aw w i = true -> vlive w i (poll_child w i pid).
     Proof.
@@ -2502,30 +2510,31 @@ Section Scan.
           split; [exact Hro|]. split; [exact Hri|]. split; [rewrite E6, F; reflexivity|]. split; [rewrite E7, G; reflexivity|]. rewrite E1. exact HQ2. }
       destruct a as [|r o|].
       - destruct (Hfin (set_cs (emit w2 (EAns (answer stp) :: eh)) s')) as (X1 & X2 & X3 & X4 & X5 & X6 & X7); try reflexivity.
-        split; [exact X1|split; [exact X2|split; [exact X3|split; [exact X4|split; [exact X5|split; [exact X6|split; [exact X7|split; [|intros w' X; discriminate]]]]]]]].
+        split; [exact X1|split; [exact X2|split; [exact X3|split; [exact X4|split; [exact X5|split; [exact X6|split; [exact X7|split; [|split; [|intros w' X; discriminate]]]]]]]]].
+        2:{ intros HU. cbn. apply (US_cont (cs w2) i (answer stp) s' eh); [rewrite A, C1; exact HU|rewrite A, C1; exact Haw|exact Eh]. }
         cbn [awmono]. intros k Hk. unfold aw in *. cbn in Hk. destruct (Nat.eq_dec k i) as [->|Hne]; [exact Haw|].
         rewrite (handle_cont_other _ _ _ _ _ Eh k Hne) in Hk. rewrite A, C1 in Hk. exact Hk.
       - unfold apply_rearm.
         assert (Y : forall w3, cs w3 = s' -> sel w3 = sel w2 -> scripts w3 = scripts w2 -> handed w3 = handed w2 -> g_polled w3 = g_polled w2 ->
                 dropped w3 = dropped w2 -> finished w3 = finished w2 -> vlive w i (VReady w3 o)).
         { intros w3 E1 E2 E3 E4 E5 E6 E7. destruct (Hfin w3 E1 E2 E3 E4 E5 E6 E7) as (X1 & X2 & X3 & X4 & X5 & X6 & X7).
-          split; [exact X1|split; [exact X2|split; [exact X3|split; [exact X4|split; [exact X5|split; [exact X6|split; [exact X7|split; [exact I|intros w' X; discriminate]]]]]]]]. }
+          split; [exact X1|split; [exact X2|split; [exact X3|split; [exact X4|split; [exact X5|split; [exact X6|split; [exact X7|split; [exact I|split; [intros _; exact I|intros w' X; discriminate]]]]]]]]]. }
         destruct (sel (set_cs (emit w2 (EAns (answer stp) :: eh)) s')); [destruct r|]; apply Y; reflexivity.
       - exfalso. apply Hans. eapply abort_panic. exact Eh.
     Qed.
 
     Definition vlive' (w: world) (r: vres) : Prop :=
       LiveI (vworld r) /\ N (vworld r) = N w /\ (forall k, rem (vworld r) k <= rem w k) /\ dropped (vworld r) = dropped w /\
-      finished (vworld r) = finished w /\ Q (cs (vworld r)) /\ awmono w r /\ (forall w', r <> VAbort w').
+      finished (vworld r) = finished w /\ Q (cs (vworld r)) /\ awmono w r /\ usmono w r /\ (forall w', r <> VAbort w').
     Lemma vlive_weaken w i r : vlive w i r -> vlive' w r.
     Proof.
-      intros (A & B & C & D & E & F & G & H & J). split; [exact A|]. split; [exact B|]. split; [|split; [exact E|split; [exact F|split; [exact G|split; [exact H|exact J]]]]].
+      intros (A & B & C & D & E & F & G & H & U & J). split; [exact A|]. split; [exact B|]. split; [|split; [exact E|split; [exact F|split; [exact G|split; [exact H|split; [exact U|exact J]]]]]].
       intros k. destruct (Nat.eq_dec k i) as [->|Hne]; [rewrite D; lia|rewrite (C k Hne); lia].
     Qed.
     Lemma vlive'_refl w : LiveI w -> Q (cs w) -> vlive' w (VCont w).
     Proof.
       intros H HQ. split; [exact H|]. split; [reflexivity|]. split; [intros; cbn [vworld]; lia|]. split; [reflexivity|]. split; [reflexivity|].
-      split; [exact HQ|]. split; [cbn; auto|]. intros w' X; discriminate.
+      split; [exact HQ|]. split; [cbn; auto|]. split; [intros HU; exact HU|]. intros w' X; discriminate.
     Qed.
 
     Lemma visit_live w i pid : LiveI w -> Q (cs w) -> i < N w ->
@@ -2536,7 +2545,8 @@ Section Scan.
       destruct (any_per_iter && negb (any_ready w)) eqn:Eany.
       { split.
         - split; [exact HL|]. split; [reflexivity|]. split; [intros; cbn [vworld]; lia|]. split; [reflexivity|]. split; [reflexivity|].
-          split; [exact HQ|]. split; [cbn; auto|]. intros w' X; discriminate.
+          split; [exact HQ|]. split; [cbn; auto|]. split; [|intros w' X; discriminate].
+          intros HU. apply andb_true_iff in Eany as [Eany _]. split; [exact Eany|exact HU].
         - intros Hb _. exfalso. rewrite (bit_any_ready w i Hsel Hb), andb_false_r in Eany. discriminate. }
       unfold clear_bit. rewrite Hsel.
       assert (HLb : forall b, LiveI (set_bits w b)) by (intros b; apply (LiveI_frame w); auto).
@@ -2546,7 +2556,7 @@ Section Scan.
         split; [apply (vlive_weaken _ i) in H; exact H|]. destruct H as (_ & _ & _ & D & _). exact D. }
       assert (Y : forall b, vlive' w (VCont (set_bits w b))).
       { intros b. split; [apply HLb|]. split; [reflexivity|]. split; [intros; cbn [vworld]; unfold rem; cbn; lia|]. split; [reflexivity|]. split; [reflexivity|].
-        split; [exact HQ|]. split; [cbn; auto|]. intros w' E; discriminate. }
+        split; [exact HQ|]. split; [cbn; auto|]. split; [intros HU; exact HU|]. intros w' E; discriminate. }
       destruct clear_first.
       - destruct (nth i (bits w) false) eqn:Eb.
         + destruct (awaited (cs w) i) eqn:Ea; [destruct (X Ea) as [X1 X2]; split; [exact X1|intros _ _; exact X2]|]. split; [apply Y|]. intros _ Ha. unfold aw in Ha. congruence.
@@ -2566,23 +2576,24 @@ Section Scan.
       induction is as [|i rest IH]; intros w pid HL HQ Hin; cbn [scan].
       { split; [apply vlive'_refl; auto|]. intros j []. }
       assert (Hi : i < N w) by (apply Hin; left; reflexivity).
-      destruct (visit_live w i pid HL HQ Hi) as [(V1 & V2 & V3 & V4 & V4' & VQ & VM & V5) Vp].
+      destruct (visit_live w i pid HL HQ Hi) as [(V1 & V2 & V3 & V4 & V4' & VQ & VM & VU & V5) Vp].
       pose proof HL as (Hsel & _).
       pose proof (visit_other w i pid) as Ho.
-      destruct (visit w i pid) as [w'|w'|w' o|w'] eqn:Ev; cbn [vworld awmono] in *.
+      destruct (visit w i pid) as [w'|w'|w' o|w'] eqn:Ev; cbn [vworld awmono] in *; unfold usmono in VU.
       - assert (Hin' : forall j, In j rest -> j < N w') by (intros j Hj; rewrite V2; apply Hin; right; exact Hj).
-        destruct (IH w' pid V1 VQ Hin') as [(S1 & S2 & S3 & S4 & S4' & SQ & SM & S5) Sp].
+        destruct (IH w' pid V1 VQ Hin') as [(S1 & S2 & S3 & S4 & S4' & SQ & SM & SU & S5) Sp].
         split.
         + split; [exact S1|]. split; [congruence|]. split; [intros k; specialize (S3 k); specialize (V3 k); lia|]. split; [congruence|]. split; [congruence|].
-          split; [exact SQ|]. split; [|exact S5].
-          destruct (scan w' rest pid) as [w2|w2|w2 o|w2]; cbn [awmono] in *; auto.
+          split; [exact SQ|]. split; [|split; [|exact S5]].
+          * destruct (scan w' rest pid) as [w2|w2|w2 o|w2]; cbn [awmono] in *; auto.
+          * unfold usmono in *. intros HU. apply SU, VU, HU.
         + destruct (scan w' rest pid) as [w2|w2|w2 o|w2]; cbn [vworld] in *; auto;
             (intros j Hj Ha Hb; destruct (Nat.eq_dec i j) as [->|Hne];
              [specialize (Vp Hb Ha); specialize (S3 j); lia
              |destruct Hj as [->|Hj]; [congruence|];
               destruct (Ho j w' Hsel (fun e => Hne (eq_sym e)) eq_refl) as [HB HA];
               specialize (Sp j Hj (eq_trans HA Ha) (HB Hb)); specialize (V3 j); lia]).
-      - split; [split; [exact V1|split; [exact V2|split; [exact V3|split; [exact V4|split; [exact V4'|split; [exact VQ|split; [exact VM|exact V5]]]]]]]|].
+      - split; [split; [exact V1|split; [exact V2|split; [exact V3|split; [exact V4|split; [exact V4'|split; [exact VQ|split; [exact VM|split; [exact VU|exact V5]]]]]]]]|].
         intros j Hj Ha Hb. exfalso.
         unfold visit in Ev. rewrite (bit_any_ready w j Hsel Hb), andb_false_r in Ev. unfold clear_bit in Ev. rewrite Hsel in Ev.
         assert (X : forall b r, poll_child (set_bits w b) i pid = r -> r <> VPending w').
@@ -2591,44 +2602,47 @@ Section Scan.
         destruct clear_first.
         + destruct (nth i (bits w) false); [|discriminate]. destruct (awaited (cs w) i); [eapply X; eauto|discriminate].
         + destruct (awaited (cs w) i); [|discriminate]. destruct (nth i (bits w) false); [eapply X; eauto|discriminate].
-      - split; [split; [exact V1|split; [exact V2|split; [exact V3|split; [exact V4|split; [exact V4'|split; [exact VQ|split; [exact I|exact V5]]]]]]]|exact I].
+      - split; [split; [exact V1|split; [exact V2|split; [exact V3|split; [exact V4|split; [exact V4'|split; [exact VQ|split; [exact I|split; [exact VU|exact V5]]]]]]]]|exact I].
       - exfalso. exact (V5 w' eq_refl).
     Qed.
 
     Lemma LiveI_cs w s' : slots s' = N w -> LiveI w -> LiveI (set_cs w s').
     Proof. intros E (A & B & C & D & F). unfold LiveI, HT, polled, N in *. cbn. rewrite E. repeat split; auto; apply F; auto. Qed.
 
-    Theorem poll_live w pid np : LiveI w -> Q (cs w) ->
+    Theorem poll_live w pid np : LiveI w -> Q (cs w) -> TS (cs w) ->
       let w' := poll w pid np in
       LiveI w' /\ N w' = N w /\ (forall k, rem w' k <= rem w k) /\ dropped w' = dropped w /\
-      (g_retpend w' = true -> finished w' = finished w /\ (forall k, aw w' k = true -> aw w k = true) /\
+      (g_retpend w' = true -> TS (cs w') /\ finished w' = finished w /\ (forall k, aw w' k = true -> aw w k = true) /\
          forall j, j < N w -> aw w j = true -> nth j (bits w) false = true -> rem w' j <= rem w j - 1) /\
-      (g_retpend w' = false -> (forall o, final o = true) -> finished w' = true).
+      (g_retpend w' = false -> (forall o, final o = true) -> finished w' = true /\ exists o, In (EEndR o) (tr w')).
     Proof.
-      intros HL HQ. cbv zeta. unfold poll.
+      intros HL HQ HT. cbv zeta. unfold poll.
       assert (Hmf : forall w1 o, LiveI w1 -> LiveI (mark_final w1 o) /\ N (mark_final w1 o) = N w1 /\ (forall k, rem (mark_final w1 o) k = rem w1 k) /\
-                 dropped (mark_final w1 o) = dropped w1 /\ g_retpend (mark_final w1 o) = g_retpend w1 /\ (final o = true -> finished (mark_final w1 o) = true)).
+                 dropped (mark_final w1 o) = dropped w1 /\ g_retpend (mark_final w1 o) = g_retpend w1 /\ (final o = true -> finished (mark_final w1 o) = true) /\
+                 tr (mark_final w1 o) = tr w1).
       { intros w1 o H. unfold mark_final. destruct (final o); [|split; [exact H|repeat split; intros; discriminate]].
         split; [apply (LiveI_frame w1); auto|]. repeat split. }
       pose proof HL as (Hsel & _).
       destruct (pre_exit (cs w)) as [o|].
-      { match goal with |- context[mark_final ?W o] => destruct (Hmf W o) as (M1 & M2 & M3 & M4 & M5 & M6) end.
+      { match goal with |- context[mark_final ?W o] => destruct (Hmf W o) as (M1 & M2 & M3 & M4 & M5 & M6 & M7) end.
         { apply (LiveI_frame w); auto. }
         split; [exact M1|]. split; [rewrite M2; reflexivity|]. split; [intros k; rewrite M3; cbn; unfold rem; cbn; lia|].
-        split; [rewrite M4; reflexivity|]. rewrite M5. cbn. split; [intros; discriminate|]. intros _ Hf. apply M6, Hf. }
+        split; [rewrite M4; reflexivity|]. rewrite M5. cbn. split; [intros; discriminate|]. intros _ Hf. split; [apply M6, Hf|].
+        exists o. rewrite M7. cbn. apply in_or_app. right. right. left. reflexivity. }
       set (w0 := begin_poll w pid np).
       assert (HL0 : LiveI w0) by (apply (LiveI_frame w); auto).
       destruct (pre_any (cs w0) && negb (any_ready w0)) eqn:Epa.
       { split; [apply (LiveI_frame w0); auto|]. split; [reflexivity|]. split; [intros; unfold rem; cbn; lia|]. split; [reflexivity|].
-        split; [|cbn; intros; discriminate]. intros _. split; [reflexivity|]. split; [auto|].
+        split; [|cbn; intros; discriminate]. intros _. split; [exact HT|]. split; [reflexivity|]. split; [auto|].
         intros j Hj Ha Hb. exfalso. assert (B0 : nth j (bits w0) false = true) by exact Hb.
         rewrite (bit_any_ready w0 j Hsel B0), andb_false_r in Epa. discriminate. }
-      destruct (order (cs w0)) as [[is s1]|] eqn:Eo; [|exfalso; exact (order_some (cs w0) HQ Eo)].
+      destruct (order (cs w0)) as [[is s1]|] eqn:Eo; [|exfalso; exact (TS_order_some (cs w0) HT Eo)].
+      assert (HU1 : US (cs (set_cs w0 s1))) by (cbn; eapply TS_order; eauto).
       assert (HL1 : LiveI (set_cs w0 s1)) by (apply LiveI_cs; [apply (order_slots _ _ _ Eo)|exact HL0]).
       assert (HQ1 : Q (cs (set_cs w0 s1))) by (cbn; eapply Q_order; eauto).
       assert (Hin : forall i, In i is -> i < N (set_cs w0 s1)).
       { intros i Hi. unfold N; cbn. rewrite (order_slots (cs w0) is s1 Eo). apply (order_bound (cs w0) is s1 HQ Eo i Hi). }
-      destruct (scan_live is (set_cs w0 s1) pid HL1 HQ1 Hin) as [(S1 & S2 & S3 & S4 & S4' & SQ & SM & S5) Sp].
+      destruct (scan_live is (set_cs w0 s1) pid HL1 HQ1 Hin) as [(S1 & S2 & S3 & S4 & S4' & SQ & SM & SU & S5) Sp]. specialize (SU HU1).
       assert (N1 : N (set_cs w0 s1) = N w) by (unfold N; cbn; apply (order_slots _ _ _ Eo)).
       assert (D1 : dropped (set_cs w0 s1) = dropped w) by reflexivity.
       assert (F1 : finished (set_cs w0 s1) = finished w) by reflexivity.
@@ -2637,28 +2651,167 @@ Section Scan.
       assert (Hcov : forall j, j < N w -> aw w j = true -> In j is /\ aw (set_cs w0 s1) j = true).
       { intros j Hj Ha. split; [apply (order_cover (cs w0) is s1 HQ Eo j Hj Ha)|]. rewrite A1. exact Ha. }
       destruct (scan (set_cs w0 s1) is pid) as [w1|w1|w1 o|w1]; cbn [vworld awmono] in *.
-      - pose proof (finish_slots (cs w1)) as Fs. pose proof (finish_aw (cs w1)) as Fa. destruct (finish (cs w1)) as [s2 [x|]]; cbn [fst] in Fs, Fa.
-        + match goal with |- context[mark_final ?W x] => destruct (Hmf W x) as (M1 & M2 & M3 & M4 & M5 & M6) end.
+      - pose proof (finish_slots (cs w1)) as Fs. pose proof (finish_aw (cs w1)) as Fa. pose proof (US_finish (cs w1) SQ SU) as Fu.
+        destruct (finish (cs w1)) as [s2 [x|]]; cbn [fst snd] in Fs, Fa, Fu.
+        + match goal with |- context[mark_final ?W x] => destruct (Hmf W x) as (M1 & M2 & M3 & M4 & M5 & M6 & M7) end.
           { apply (LiveI_frame (set_cs w1 s2)); auto. apply LiveI_cs; auto. }
           split; [exact M1|]. split; [rewrite M2; unfold N in *; cbn; congruence|].
           split; [intros k; rewrite M3; specialize (S3 k); unfold rem in *; cbn in *; lia|]. split; [rewrite M4; cbn; congruence|].
-          rewrite M5. cbn. split; [intros; discriminate|]. intros _ Hf. apply M6, Hf.
+          rewrite M5. cbn. split; [intros; discriminate|]. intros _ Hf. split; [apply M6, Hf|].
+          exists x. rewrite M7. cbn. apply in_or_app. right. left. reflexivity.
         + split; [apply (LiveI_frame (set_cs w1 s2)); auto; apply LiveI_cs; auto|]. split; [unfold N in *; cbn; congruence|].
           split; [intros k; specialize (S3 k); unfold rem in *; cbn in *; lia|]. split; [cbn; congruence|].
-          split; [|cbn; intros; discriminate]. intros _. split; [cbn; congruence|]. split.
+          split; [|cbn; intros; discriminate]. intros _. split; [cbn; apply Fu; reflexivity|]. split; [cbn; congruence|]. split.
           * intros k Hk. unfold aw in Hk. cbn in Hk. rewrite (Fa k SQ) in Hk. rewrite <- A1. apply SM. exact Hk.
           * intros j Hj Ha Hb. destruct (Hcov j Hj Ha) as [Hin' Ha']. specialize (Sp j Hin' Ha' Hb). unfold rem in *; cbn in *. lia.
       - split; [apply (LiveI_frame w1); auto|]. split; [unfold N in *; cbn; congruence|].
         split; [intros k; specialize (S3 k); unfold rem in *; cbn in *; lia|]. split; [cbn; congruence|].
-        split; [|cbn; intros; discriminate]. intros _. split; [cbn; congruence|]. split.
+        split; [|cbn; intros; discriminate]. intros _. split; [cbn; apply US_endp; apply SU|]. split; [cbn; congruence|]. split.
         * intros k Hk. rewrite <- A1. apply SM. exact Hk.
         * intros j Hj Ha Hb. destruct (Hcov j Hj Ha) as [Hin' Ha']. specialize (Sp j Hin' Ha' Hb). unfold rem in *; cbn in *. lia.
-      - match goal with |- context[mark_final ?W o] => destruct (Hmf W o) as (M1 & M2 & M3 & M4 & M5 & M6) end.
+      - match goal with |- context[mark_final ?W o] => destruct (Hmf W o) as (M1 & M2 & M3 & M4 & M5 & M6 & M7) end.
         { apply (LiveI_frame (set_cs w1 (after_stop (cs w1)))); auto. apply LiveI_cs; auto. apply after_slots. }
         split; [exact M1|]. split; [rewrite M2; unfold N in *; cbn; rewrite after_slots; congruence|].
         split; [intros k; rewrite M3; specialize (S3 k); unfold rem in *; cbn in *; lia|]. split; [rewrite M4; cbn; congruence|].
-        rewrite M5. cbn. split; [intros; discriminate|]. intros _ Hf. apply M6, Hf.
+        rewrite M5. cbn. split; [intros; discriminate|]. intros _ Hf. split; [apply M6, Hf|].
+        exists o. rewrite M7. cbn. apply in_or_app. right. left. reflexivity.
       - exfalso. exact (S5 w1 eq_refl).
+    Qed.
+    (* ---- a wake-driven executor: fire the most recent waker of every child, then poll with the same task ---- *)
+    Hypothesis no_mutate : forall w m a sc, mutate w m a sc = w.
+    Definition latest (w: world) (c: nat) := length (nth c (handed w) []) - 1.
+    Lemma fire_latest_bit w c : K w -> LiveI w -> c < N w -> polled w c = true ->
+      nth c (bits (step_op w (OFire c (latest w c)))) false = true.
+    Proof.
+      intros HK (Hsel & _ & HL & HP & HH) Hc Hp. destruct (HH c Hc) as [H1 H2]. specialize (H2 Hp).
+      assert (Hlb : c < length (bits w)) by (destruct HK as ([_ Wb _ _ _] & _); unfold N in *; lia).
+      cbn [step_op]. unfold fire_handle, latest. cbn [handed emit].
+      destruct (nth c (handed w) []) as [|h0 l0] eqn:El; [contradiction|].
+      assert (Hne : nth_error (h0 :: l0) (length (h0 :: l0) - 1) = Some (WSub c)).
+      { assert (Hlt : length (h0 :: l0) - 1 < length (h0 :: l0)) by (cbn; lia).
+        destruct (nth_error (h0 :: l0) (length (h0 :: l0) - 1)) as [x|] eqn:Ex; [|apply nth_error_None in Ex; lia].
+        rewrite (H1 x (nth_error_In _ _ Ex)). reflexivity. }
+      rewrite Hne.
+      match goal with |- context[do_fire ?W c] => set (wx := W) end.
+      assert (Nx : N wx = N w) by reflexivity. assert (Bx : bits wx = bits w) by reflexivity.
+      unfold do_fire. rewrite Nx, Bx. destruct (Nat.ltb_spec c (N w)) as [_|X]; [|lia].
+      destruct (nth c (bits w) true) eqn:Eb.
+      - unfold fire_noop. cbn [bits]. rewrite Bx. rewrite (nth_indep _ true false Hlb) in Eb. exact Eb.
+      - unfold fire_set. cbn [bits]. rewrite Bx. apply nth_upd_same. exact Hlb.
+    Qed.
+    Lemma fire_step_frame w c k : let w' := step_op w (OFire c k) in
+      cs w' = cs w /\ sel w' = sel w /\ scripts w' = scripts w /\ handed w' = handed w /\ g_polled w' = g_polled w /\ dropped w' = dropped w /\
+      finished w' = finished w /\ (forall j, nth j (bits w) false = true -> nth j (bits w') false = true) /\ ext w w'.
+    Proof.
+      cbv zeta. cbn [step_op]. destruct (fire_handle_live (emit w [EO]) c k) as (A & B & C & D & E & F & G).
+      destruct (fire_handle_keeps 0 (emit w [EO]) c k) as [(_ & _ & X) _].
+      repeat split; auto.
+      - intros j Hj. destruct (fire_handle_keeps j (emit w [EO]) c k) as [(_ & KB & _) _]. apply KB. exact Hj.
+      - eapply ext_trans; [|exact X]. exists [EO]. reflexivity.
+    Qed.
+    Definition fair_fires (w: world) (l: list nat) : list op := map (fun c => OFire c (latest w c)) l.
+    Lemma run_fires l : forall w0 w, Inv w -> LiveI w -> handed w = handed w0 ->
+      let w' := run_ops w (fair_fires w0 l) in
+      Inv w' /\ LiveI w' /\ cs w' = cs w /\ scripts w' = scripts w /\ handed w' = handed w /\ g_polled w' = g_polled w /\ dropped w' = dropped w /\
+      finished w' = finished w /\ (forall j, nth j (bits w) false = true -> nth j (bits w') false = true) /\
+      (forall c, In c l -> c < N w -> polled w c = true -> nth c (bits w') false = true) /\ ext w w'.
+    Proof.
+      induction l as [|c l IH]; intros w0 w HI HL Hh; cbv zeta; unfold run_ops, fair_fires; cbn [map fold_left].
+      { split; [exact HI|]. split; [exact HL|]. repeat split; auto. apply ext_refl. }
+      set (w1 := step_op w (OFire c (latest w0 c))).
+      destruct (fire_step_frame w c (latest w0 c)) as (A & B & C & D & E & F & G & M & X). fold w1 in A, B, C, D, E, F, G, M, X.
+      assert (HI1 : Inv w1) by (apply Inv_step; exact HI).
+      assert (HL1 : LiveI w1) by (apply (LiveI_frame w); auto).
+      destruct (IH w0 w1 HI1 HL1 (eq_trans D Hh)) as (I2 & L2 & C2 & S2 & H2 & P2 & D2 & F2 & M2 & B2 & X2).
+      unfold run_ops, fair_fires in *.
+      split; [exact I2|]. split; [exact L2|]. split; [congruence|]. split; [congruence|]. split; [congruence|]. split; [congruence|].
+      split; [congruence|]. split; [congruence|]. split; [intros j Hj; apply M2, M, Hj|]. split; [|eapply ext_trans; eauto].
+      intros c' [<-|Hin] Hc Hp.
+      - apply M2. unfold w1. assert (E0 : latest w0 c = latest w c) by (unfold latest; rewrite Hh; reflexivity). rewrite E0.
+        apply fire_latest_bit; auto. apply HI.
+      - apply B2; auto; [unfold N in *; rewrite A; exact Hc|unfold polled in *; rewrite E; exact Hp].
+    Qed.
+
+    Definition round (w: world) : world := run_ops w (fair_fires w (seq 0 (N w)) ++ [OPollSame]).
+    Theorem round_live w : Inv w -> LiveI w -> TS (cs w) -> finished w = false -> dropped w = false ->
+      let w' := round w in
+      Inv w' /\ LiveI w' /\ N w' = N w /\ (forall k, rem w' k <= rem w k) /\ dropped w' = false /\
+      (g_retpend w' = true -> TS (cs w') /\ finished w' = false /\ (forall k, aw w' k = true -> aw w k = true) /\
+         forall j, j < N w -> aw w j = true -> rem w' j <= rem w j - 1) /\
+      (g_retpend w' = false -> (forall o, final o = true) -> finished w' = true /\ exists o, In (EEndR o) (tr w')).
+    Proof.
+      intros HI HL HT Hf Hd. cbv zeta. unfold round, run_ops. rewrite fold_left_app. cbn [fold_left].
+      destruct (run_fires (seq 0 (N w)) w w HI HL eq_refl) as (I2 & L2 & C2 & S2 & H2 & P2 & D2 & F2 & M2 & B2 & X2).
+      unfold run_ops in *. set (wf := fold_left step_op (fair_fires w (seq 0 (N w))) w) in *.
+      cbn [step_op]. rewrite F2, D2, Hf, Hd. cbn [orb].
+      assert (HTf : TS (cs wf)) by (rewrite C2; exact HT).
+      assert (HQf : Q (cs wf)) by apply I2.
+      match goal with |- context[poll wf ?a ?b] => destruct (poll_live wf a b L2 HQf HTf) as (A & B & C & D & E & F); set (w' := poll wf a b) in * end.
+      assert (Nf : N wf = N w) by (unfold N; rewrite C2; reflexivity).
+      split; [apply Inv_poll; exact I2|]. split; [exact A|]. split; [congruence|].
+      split; [intros k; specialize (C k); unfold rem in *; rewrite S2 in C; exact C|]. split; [congruence|].
+      split; [|exact F].
+      intros Hr. destruct (E Hr) as (E0 & E1 & E2 & E3). split; [exact E0|]. split; [congruence|]. split.
+      - intros k Hk. specialize (E2 k Hk). unfold aw in *. rewrite C2 in E2. exact E2.
+      - intros j Hj Ha. assert (Hb : nth j (bits wf) false = true).
+        { destruct (polled w j) eqn:Ep.
+          - apply B2; auto. apply in_seq. lia.
+          - apply M2. destruct HI as ((_ & _ & _ & H3 & _) & _). apply (H3 j Hj Ha Ep). }
+        specialize (E3 j ltac:(lia) ltac:(unfold aw in *; rewrite C2; exact Ha) Hb). unfold rem in *. rewrite S2 in E3. exact E3.
+    Qed.
+    Lemma round_finished w : Inv w -> LiveI w -> finished w = true ->
+      let w' := round w in Inv w' /\ LiveI w' /\ N w' = N w /\ dropped w' = dropped w /\ finished w' = true /\ ext w w' /\ (forall k, rem w' k = rem w k).
+    Proof.
+      intros HI HL Hf. cbv zeta. unfold round, run_ops. rewrite fold_left_app. cbn [fold_left].
+      destruct (run_fires (seq 0 (N w)) w w HI HL eq_refl) as (I2 & L2 & C2 & S2 & H2 & P2 & D2 & F2 & M2 & B2 & X2).
+      unfold run_ops in *. set (wf := fold_left step_op (fair_fires w (seq 0 (N w))) w) in *.
+      cbn [step_op]. rewrite F2, Hf. cbn [orb].
+      split; [exact I2|]. split; [exact L2|]. split; [unfold N; rewrite C2; reflexivity|]. split; [exact D2|]. split; [congruence|]. split; [exact X2|].
+      intros k. unfold rem. rewrite S2. reflexivity.
+    Qed.
+
+    Fixpoint rounds (r: nat) (w: world) : world := match r with 0 => w | S r => rounds r (round w) end.
+    Lemma rounds_S r w : rounds (S r) w = round (rounds r w).
+    Proof. revert w. induction r as [|r IH]; intros w; [reflexivity|]. cbn [rounds] in *. rewrite IH. reflexivity. Qed.
+
+    Lemma rounds_is_run r : forall w, exists ops, rounds r w = run_ops w ops.
+    Proof.
+      induction r as [|r IH]; intros w; [exists []; reflexivity|]. cbn [rounds]. destruct (IH (round w)) as [ops Hops].
+      exists ((fair_fires w (seq 0 (N w)) ++ [OPollSame]) ++ ops). rewrite Hops. unfold round, run_ops. rewrite (fold_left_app step_op (fair_fires w (seq 0 (N w)) ++ [OPollSame]) ops w). reflexivity.
+    Qed.
+    Definition returned (w: world) := exists o, In (EEndR o) (tr w).
+    (* after r rounds: the combinator has returned its final result, or every child it still waits for has consumed r steps of its script *)
+    Theorem rounds_progress w0 : Inv w0 -> LiveI w0 -> TS (cs w0) -> dropped w0 = false -> finished w0 = false -> (forall o, final o = true) ->
+      (forall r j, j < N w0 -> TS (cs (rounds r w0)) -> aw (rounds r w0) j = true -> 1 <= rem (rounds r w0) j) ->
+      forall r, let w := rounds r w0 in
+      Inv w /\ LiveI w /\ N w = N w0 /\ dropped w = false /\
+      ((finished w = true /\ returned w) \/ (finished w = false /\ TS (cs w) /\ forall j, j < N w0 -> aw w j = true -> rem w j + r <= rem w0 j)).
+    Proof.
+      intros HI HL HT Hd Hf Hfin Hpos r. induction r as [|r IH]; cbv zeta.
+      { cbn [rounds]. split; [exact HI|]. split; [exact HL|]. split; [reflexivity|]. split; [exact Hd|]. right. split; [exact Hf|]. split; [exact HT|]. intros; lia. }
+      rewrite rounds_S. cbv zeta in IH. destruct IH as (I1 & L1 & N1 & D1 & [[F1 R1]|(F1 & T1 & M1)]).
+      - destruct (round_finished _ I1 L1 F1) as (A & B & C & D & E & X & _).
+        split; [exact A|]. split; [exact B|]. split; [congruence|]. split; [congruence|]. left. split; [exact E|].
+        destruct R1 as [o Ho]. destruct X as [u Hu]. exists o. rewrite Hu. apply in_or_app. left. exact Ho.
+      - destruct (round_live _ I1 L1 T1 F1 D1) as (A & B & C & D & E & F & G).
+        split; [exact A|]. split; [exact B|]. split; [congruence|]. split; [exact E|].
+        destruct (g_retpend (round (rounds r w0))) eqn:Er.
+        + right. destruct (F eq_refl) as (F0 & F2 & F3 & F4). split; [exact F2|]. split; [exact F0|].
+          intros j Hj Ha. specialize (F3 j Ha). specialize (F4 j ltac:(lia) F3). specialize (M1 j Hj F3).
+          pose proof (Hpos r j Hj T1 F3). lia.
+        + left. apply (G eq_refl Hfin).
+    Qed.
+
+    (* so with scripts of length at most B and children that are awaited only while their script is not exhausted, B rounds suffice *)
+    Theorem fair_executor_returns w0 B : Inv w0 -> LiveI w0 -> TS (cs w0) -> dropped w0 = false -> finished w0 = false -> (forall o, final o = true) ->
+      (forall j, rem w0 j <= B) -> 1 <= B ->
+      (forall r j, j < N w0 -> TS (cs (rounds r w0)) -> aw (rounds r w0) j = true -> 1 <= rem (rounds r w0) j) ->
+      (forall s, Q s -> TS s -> exists j, j < slots s /\ awaited s j = true) ->
+      let w := rounds B w0 in finished w = true /\ returned w /\ dropped w = false.
+    Proof.
+      intros HI HL HT Hd Hf Hfin HB HB1 Hpos Hsome. cbv zeta.
+      destruct (rounds_progress w0 HI HL HT Hd Hf Hfin Hpos B) as (IB & _ & NB & D & [[F R]|(F & TB & M)]); [auto|].
+      exfalso. destruct (Hsome _ ltac:(apply IB) TB) as (j & Hj & Ha). fold (N (rounds B w0)) in Hj. rewrite NB in Hj. fold (aw (rounds B w0) j) in Ha. specialize (M j Hj Ha). specialize (Hpos B j Hj TB Ha). specialize (HB j). lia.
     Qed.
   End Live.
 
